@@ -263,6 +263,7 @@ SKELETONS = {
     'bookthm': ('book', ['THMDEF:section', 'C', 'S', 'THM', 'LEM', 'COR', 'S', 'THM', 'C', 'S', 'LEM']),
     'bookthm2': ('book', ['THMDEF:chapter', 'C', 'THM', 'S', 'LEM', 'C', 'THM', 'COR']),
     'book1': ('book', ['C', 'S', 'EQ', 'SS', 'C', 'EQ', 'S', 'FIG', 'S']),
+    'book0': ('book', ['EQ', 'FIG', 'EQ', 'C', 'EQ', 'FIG']),          # numbered objects before the first chapter
     'book2': ('book', ['C', 'S', 'SET', 'S', 'APP', 'C', 'S']),
 }
 LEVELS = {'C': 0, 'S': 1, 'SS': 2, 'SSS': 3}
@@ -300,7 +301,7 @@ def h_doc(e, skel, depth):
         if name == 'subsubsection':
             return the('subsection') + ['.'] + _num(cnt['subsubsection'])
         if name in ('equation', 'figure'):
-            if cls == 'book' and not (name == 'figure' and cnt['chapter'] == 0):       # LaTeX omits the chapter part while it is 0
+            if cls == 'book' and not cnt['chapter'] == 0:       # LaTeX (book.cls: \ifnum\c@chapter>\z@ \thechapter.\fi) omits the chapter part while it is 0, for equations as for floats
                 return the('chapter') + ['.'] + _num(cnt[name])
             return _num(cnt[name])
     k = 0
@@ -460,7 +461,7 @@ def jobs(tier, seed):
         for g in graphs(n):
             nops = 3 if (q or n == 4) else 4
             J.append(dict(harness='h_reset', params=dict(n=n, parents=list(g), nops=nops), label='reset n=%d %s ops=%d' % (n, g, nops), no_twin=n > 2))
-    sk = ['art1', 'art2', 'art3', 'thm', 'thm2', 'bookthm', 'bookthm2', 'book1'] if q else list(SKELETONS)
+    sk = ['art1', 'art2', 'art3', 'thm', 'thm2', 'bookthm', 'bookthm2', 'book1', 'book0'] if q else list(SKELETONS)
     for s in sk:
         for depth in ((0, 1, 2, 3) if q else (-1, 0, 1, 2, 3, 4)):
             J.append(dict(harness='h_doc', params=dict(skel=s, depth=depth), label='doc %s depth=%d' % (s, depth), split=3, no_twin=depth != 2))
